@@ -67,15 +67,22 @@ class P(Prop):
         out = []
         for k in range(n):
             nswb = rng.choice([1, 2, 2, 3, 3, 3, 4, 4, 4, 5, 5, 6])
-            swbs = sorted(rng.sample(range(1, 10), nswb))
+            big = rng.random() < 0.08          # a large plant: 9-12 switchboards, 9-14 breakers
+            if big:
+                nswb = rng.randint(9, 12)
+            swbs = sorted(rng.sample(range(1, 10 if not big else 16), nswb))
             if nswb == 1:
                 nb = 0
             else:
-                nb = rng.randint(1, min(7, nswb + 2))
+                nb = rng.randint(1, min(7, nswb + 2)) if not big else rng.randint(9, 14)
             breakers = []
             for _ in range(nb):
                 a, b = rng.sample(swbs, 2)
                 breakers.append([a, b])
+            if big:      # a chain through all switchboards first, so that the later breakers matter too
+                order = swbs[:]
+                rng.shuffle(order)
+                breakers = [[order[i], order[i + 1]] for i in range(nswb - 1)] + breakers[: max(0, nb - (nswb - 1))]
             T = rng.randint(1, 10)
             p_closed = rng.choice([0.3, 0.5, 0.7, 0.9])
             p_flip = rng.choice([0.0, 0.1, 0.3, 0.6])
@@ -85,7 +92,14 @@ class P(Prop):
                 if t > 0:
                     row = [(not c) if rng.random() < p_flip else c for c in row]
                 sts.append(list(row))
-            case = {"swbs": swbs, "breakers": breakers, "sts": sts,
+            if big and T >= 2:      # steps at which ONE breaker alone changes, the last-declared ones included
+                row = list(sts[0])
+                sts = [list(row)]
+                for t in range(1, T):
+                    j0 = rng.choice([len(breakers) - 1, len(breakers) - 2, rng.randrange(len(breakers))])
+                    row[j0] = not row[j0]
+                    sts.append(list(row))
+            case = {"swbs": swbs, "breakers": breakers, "sts": sts, "oracle_only": big,
                     "setter": rng.choice(["all", "each"]), "later": [], "numeric": rng.random() < 0.35}
             # history: further status settings on the SAME system object; "reuse" = the caller mutates
             # the array it passed before in place and passes it again (same series length)
@@ -188,6 +202,10 @@ class P(Prop):
     def term(self, case, obs):
         if "error" in obs:
             return "false"
+        if case.get("oracle_only"):
+            # large plants (9+ breakers): the quick-find labels of the model are nested functions whose evaluation cost grows
+            # exponentially with the number of breakers; these cases are decided by the oracle (breadth-first search) alone
+            return "true"
         swbs, brk = case["swbs"], case["breakers"]
         parts = []
         for sts, o in zip(self.all_sts(case), obs["steps"]):
@@ -244,6 +262,8 @@ class P(Prop):
              "setter=" + case["setter"], f"settings-on-one-object={1 + len(case.get('later', []))}"]
         if case.get("numeric"):
             t.append("numeric-0/1-status")
+        if case.get("oracle_only"):
+            t.append("large-plant(9-12 switchboards, 9-14 breakers): oracle only")
         if any(lt["reuse"] for lt in case.get("later", [])):
             t.append("caller-buffer-reused-in-place")
         obs = dict(obs["steps"][0]) if "steps" in obs else obs
